@@ -121,6 +121,8 @@ struct Obj {
   long phase_base_ext = 0;
   long phase_step = 0;  // summer increments of a phase with a reader all use this value
   std::vector<CellInfo> cells;
+  uint64_t periods = 0;     // maxer / miner: reset() calls so far
+  int long_histories = 0;
 };
 
 struct OpPlan { int obj; long value; int churn = -1; };  // churn >= 0: a private instance churn round instead of a count
@@ -1118,6 +1120,32 @@ void run_case(Chooser& c) {
           o.has = false; o.ext = 0;
           dsched::label("extreme_reset");
           check_quiescent(o, "after reset (new period)", &c);
+          // long period histories (drawn after the plain reset so earlier choices keep their meaning): the property
+          // speaks of "the current period" without a bound on how many periods there were. 2^32 further periods (a
+          // contribution of the period before them must not come back), or as many as make this the period number
+          // 2^32-1 (slots that were never written must not count). The loop is plain arithmetic on the object.
+          if (c.chance(1, 2) && o.long_histories < 2) {
+            o.long_histories++;
+            bool to_all_ones = c.flip();
+            long v = pick_value(c, o.kind, false);
+            uint64_t n;
+            if (to_all_ones) {
+              n = (0xFFFFFFFFull - ((o.periods + 1) & 0xFFFFFFFFull)) & 0xFFFFFFFFull;
+              dsched::describe("periods+=%llu(to period 2^32-1) ", (unsigned long long)n);
+            } else {
+              n = 1ull << 32;
+              dsched::describe("%s#%d<<%ld periods+=2^32 ", kind_name[o.kind], o.serial, v);
+              for (auto& ob : world.objs) { ob->started_sum = ob->sum; ob->started_num = ob->num; ob->started_has = ob->has; ob->started_ext = ob->ext; }
+              count_op(o, v);
+            }
+            if (o.kind == K_MAXER) { auto* m = o.maxer.get(); for (uint64_t i = 0; i < n; i++) m->reset(); }
+            else { auto* m = o.miner.get(); for (uint64_t i = 0; i < n; i++) m->reset(); }
+            o.periods += n;
+            if (n) { o.has = false; o.ext = 0; }
+            dsched::label(to_all_ones ? "extreme_period_number_all_ones" : "extreme_2^32_periods_later");
+            check_quiescent(o, to_all_ones ? "in period 2^32-1 (nothing counted in it)" : "2^32 periods after the last contribution", &c);
+          }
+          o.periods++;
         }
       } else if (what == 5) {
         // the main thread lives across every structural operation: its thread-local cache entries survive them
